@@ -708,14 +708,17 @@ impl<T> TooDee<T> {
             let suffix = p.add(num_cols);
             ptr::copy(p, suffix, len - start);
             
-            // Only iterates a maximum of `self.num_cols` times.
-            while p < suffix {
+            // Iterates exactly `num_cols` times. The cells are counted rather than compared by
+            // address: for a zero-sized `T` every cell has the same address.
+            let mut remaining = num_cols;
+            while remaining > 0 {
                 if let Some(e) = iter.next() {
                     ptr::write(p, e);
                     p = p.add(1);
+                    remaining -= 1;
                 } else {
                     // panic if the iterator length is less than expected
-                    assert_eq!(p, suffix, "unexpected iterator length");
+                    assert_eq!(remaining, 0, "unexpected iterator length");
                 }
             }
             
